@@ -60,8 +60,42 @@ def tol_of(case, v0, d, L, mode):
     return float(c[t['j'] % len(c)])
 
 
+def apply_prelude(psi, case):
+    """
+    Optional history before the judged call: a canonicalisation or compression, followed by a user-style edit of a site
+    tensor (assignment of a new array / in-place update). The judged compress must treat the edited state like any other.
+    """
+    pre = case.get('prelude')
+    if not pre:
+        return
+    rng = np.random.default_rng(case['obj']['seed'] + 99)
+    if pre['op'] == 'orth_left':
+        psi.orthonormalize(mode='left')
+    elif pre['op'] == 'orth_right':
+        psi.orthonormalize(mode='right')
+    elif pre['op'] == 'compress_left':
+        psi.compress(0.0, mode='left')
+    elif pre['op'] == 'compress_right':
+        psi.compress(1e-3, mode='right')
+    k = pre['site'] % len(psi.A)
+    a = psi.A[k]
+    mask = np.asarray(a) != 0
+    if pre['edit'] == 'assign_scaled':
+        psi.A[k] = 2.5 * a
+    elif pre['edit'] == 'inplace_scale':
+        psi.A[k] = np.array(a, dtype=complex); psi.A[k] *= (0.5 - 1.5j)
+    elif pre['edit'] == 'assign_perturbed':
+        # new entries on the existing sparsity pattern (keeps the quantum number rule)
+        psi.A[k] = np.where(mask, a + 0.3 * (rng.normal(size=a.shape) + 1j * rng.normal(size=a.shape)), 0)
+    elif pre['edit'] == 'none':
+        pass
+
+
 def check_compress(case, rec):
     psi = shaped_mps(case)
+    apply_prelude(psi, case)
+    if case.get('prelude'):
+        rec.label('prelude_' + case['prelude']['op'] + '_' + case['prelude']['edit'])
     mode = case['mode']
     L = len(psi.A); d = len(psi.qd)
     v0 = np.asarray(mps_to_vec([np.asarray(a, dtype=complex) for a in psi.A]))
@@ -229,7 +263,12 @@ def gen_compress(draw, tier):
         tol['x'] = draw(st.one_of(st.floats(0, 1), st.floats(0.5, 1), st.floats(0.8, 1)))
     if tm == 'cum':
         tol['j'] = draw(st.integers(0, 12))
-    return {'obj': obj, 'mode': draw(st.sampled_from(['left', 'right'])), 'spectrum': draw(st.sampled_from(SPECTRA)), 'tol': tol}
+    case = {'obj': obj, 'mode': draw(st.sampled_from(['left', 'right'])), 'spectrum': draw(st.sampled_from(SPECTRA)), 'tol': tol}
+    if draw(st.sampled_from(range(3))) == 2:
+        case['prelude'] = {'op': draw(st.sampled_from(['orth_left', 'orth_right', 'compress_left', 'compress_right'])),
+                           'edit': draw(st.sampled_from(['assign_scaled', 'inplace_scale', 'assign_perturbed', 'none'])),
+                           'site': draw(st.integers(0, 5))}
+    return case
 
 
 def check_from_vector_tol(case, rec):
